@@ -17,3 +17,13 @@ pub fn texts() -> Vec<&'static str> {
         "a b", "ab ab", "xxxxxxxxxy", "xxxxxxxxxx", "aaaaaaaac", "123", "a-", "ca-", "dx", "\n", "a\nb", "😀a",
     ]
 }
+
+/// generated patterns for the time left after a family's own corpus: the reference matcher's pseudo-random patterns (seeded),
+/// each also with a `\G` alternative in front / behind (the iterator / split / replace properties hinge on `\G` and empty matches)
+pub fn generated(seed: u64, index: u64) -> Vec<String> {
+    let p = crate::refsem::rendered(seed, index);
+    vec![format!("\\G(?:{})", p), format!("\\G[a-z]|{}", p), format!("{}|\\G", p), p]
+}
+pub fn small_texts() -> Vec<&'static str> {
+    vec!["", "a", "ab", "ba", "aab", "abab", "a-b", "éa", "aéb", "b1a", "ab\nab", "a1", "1a2b", "12é34"]
+}
